@@ -80,18 +80,7 @@ func VerifHarness_DecodeCraftedCounts() {
 	zz.Reach("crafted")
 }
 
-// Configuration and play states (where most packet types live): every payload of up to 3 (quick) /
-// 4 (thorough) arbitrary bytes. Packet types whose decoders go through reflection-driven NBT /
-// component / brigadier code cannot be executed by the engine; those paths end as "unsupported" and
-// are counted, not claimed.
-func VerifHarness_DecodeLateStates() {
-	max := 3
-	if zz.Thorough() {
-		max = 4
-	}
-	zz.MaxLen(max)
-	zz.Unwind(200)
-	zz.AllocCap(1 << 21)
+func zzStubNBT() {
 	// the third-party NBT decoder (go-mc, reflection driven) is outside the claim: a binary tag is
 	// either rejected or an opaque value that consumed an arbitrary part of the remaining bytes
 	zz.Replace("go.minekube.com/gate/pkg/edition/java/proto/util.ReadBinaryTag", func(r io.Reader, protocol proto.Protocol) (util.BinaryTag, error) {
@@ -106,6 +95,42 @@ func VerifHarness_DecodeLateStates() {
 		}
 		return util.BinaryTag{}, nil
 	})
+}
+
+// Crafted counts in the configuration and play states: a one-byte packet id, a 5-byte VarInt (every
+// int32) and up to one more byte: a count or length field at the front of any packet type never
+// leads to an allocation out of proportion to the 7-byte payload, in either direction.
+func VerifHarness_DecodeCraftedCountsLate() {
+	zz.MaxLen(8)
+	zz.Unwind(200)
+	zz.AllocCap(1 << 21)
+	zzStubNBT()
+	st := zzStateReg(3 + zz.Choose(2))
+	protocol := []proto.Protocol{764, 767, 776}[zz.Choose(3)]
+	payload := append([]byte{zz.Byte()}, zz.Bytes(5+zz.Choose(2))...)
+	zz.Assume(payload[0] < 0x80)
+	if !zz.Thorough() {
+		// quick: the VarInt in its full 5-byte form (still every int32 value)
+		zz.Assume(payload[1] >= 0x80 && payload[2] >= 0x80 && payload[3] >= 0x80 && payload[4] >= 0x80 && payload[5] < 0x10)
+	}
+	ctx, err := zzDecodeAny(st, zz.Bool(), protocol, payload)
+	zz.Assert(ctx != nil || err != nil, "decoding returned neither a context nor an error")
+	zz.Reach("crafted-late")
+}
+
+// Configuration and play states (where most packet types live): every payload of up to 3 (quick) /
+// 4 (thorough) arbitrary bytes. Packet types whose decoders go through reflection-driven NBT /
+// component / brigadier code cannot be executed by the engine; those paths end as "unsupported" and
+// are counted, not claimed.
+func VerifHarness_DecodeLateStates() {
+	max := 3
+	if zz.Thorough() {
+		max = 4
+	}
+	zz.MaxLen(max)
+	zz.Unwind(200)
+	zz.AllocCap(1 << 21)
+	zzStubNBT()
 	st := zzStateReg(3 + zz.Choose(2))
 	protocol := []proto.Protocol{47, 340, 764, 767, 776}[zz.Choose(5)]
 	payload := zz.Bytes(1 + zz.Choose(max))
